@@ -281,11 +281,185 @@ class Inliner:
         names2 = caller_names | {m.id for m in mapping.values() if isinstance(m, ast.Name)} | hl
         return pre + self._block(new, names2, stack + (name,))
 
+    # -- generators: `for x in self.gen(args): BODY`  and  `x = next(self.gen(args), default)` ---------------------
+    def _bind(self, name: str, h: FuncDef, call: ast.Call, caller_names: Set[str], st: ast.stmt):
+        """(mapping, pre-assignments) binding h's parameters to the call's arguments, or a string saying why not."""
+        a = h.args
+        if a.vararg or a.kwarg or a.posonlyargs or any(isinstance(x, ast.Starred) for x in call.args) or any(k.arg is None for k in call.keywords):
+            return 'star arguments'
+        params = [x.arg for x in a.args]
+        selfname = None
+        if self.receiver is not None:
+            if not params:
+                return 'no self parameter'
+            selfname, params = params[0], params[1:]
+        if len(call.args) > len(params):
+            return 'too many arguments'
+        bound: Dict[str, ast.expr] = dict(zip(params, call.args))
+        kwonly = [x.arg for x in a.kwonlyargs]
+        for k in call.keywords:
+            if k.arg in bound or k.arg not in params + kwonly:
+                return 'keyword does not bind'
+            bound[k.arg] = k.value  # type: ignore[index]
+        defaults = dict(zip(params[len(params) - len(a.defaults):], a.defaults))
+        for p, d in zip(kwonly, a.kw_defaults):
+            if d is not None:
+                defaults[p] = d
+        for p in params + kwonly:
+            if p not in bound:
+                if p not in defaults:
+                    return f'parameter {p} unbound'
+                bound[p] = defaults[p]
+        self._n += 1
+        line = getattr(st, 'lineno', 0)
+        hl = _locals_of(h)
+        reassigned = {n.id for n in pf.walk_shallow(h) if isinstance(n, ast.Name) and isinstance(n.ctx, (ast.Store, ast.Del))}
+        mapping: Dict[str, ast.expr] = {}
+        pre: List[ast.stmt] = []
+        if selfname is not None and selfname != self.receiver:
+            mapping[selfname] = ast.Name(id=self.receiver, ctx=ast.Load())
+        for p, v in bound.items():
+            simple = isinstance(v, (ast.Name, ast.Constant))
+            if simple and p not in reassigned and not (isinstance(v, ast.Name) and v.id in (hl - {p})):
+                mapping[p] = copy.deepcopy(v)
+            else:
+                fresh = p if (p not in caller_names) else f'{p}__{name}{self._n}'
+                mapping[p] = ast.Name(id=fresh, ctx=ast.Load())
+                pre.append(ast.copy_location(ast.Assign(targets=[ast.Name(id=fresh, ctx=ast.Store())], value=copy.deepcopy(v), lineno=line), st))
+        for loc in sorted(hl - set(bound) - ({selfname} if selfname else set())):
+            if loc in caller_names:
+                mapping[loc] = ast.Name(id=f'{loc}__{name}{self._n}', ctx=ast.Load())
+        return mapping, pre, hl
+
+    @staticmethod
+    def _yield_stmt(x: ast.stmt) -> Optional[ast.expr]:
+        if isinstance(x, ast.Expr) and isinstance(x.value, ast.Yield):
+            return x.value.value if x.value.value is not None else ast.Constant(value=None)
+        return None
+
+    def _gen_shape(self, h: FuncDef):
+        """A simple generator: statements without yields, then ONE loop whose iterations each end right after a `yield v` statement
+        (yields only as statements in tail position of the loop body), nothing after the loop.  Returns (prefix, loop) or None."""
+        if isinstance(h, ast.AsyncFunctionDef) or h.decorator_list:
+            return None
+        body = list(h.body)
+        if body and isinstance(body[0], ast.Expr) and isinstance(body[0].value, ast.Constant) and isinstance(body[0].value.value, str):
+            body = body[1:]
+        if not body or not isinstance(body[-1], (ast.For, ast.While)) or body[-1].orelse:
+            return None
+        prefix, loop = body[:-1], body[-1]
+
+        def has_yield(n: ast.AST) -> bool:
+            return any(isinstance(x, (ast.Yield, ast.YieldFrom)) for x in pf.walk_shallow(n))
+        if any(has_yield(x) for x in prefix) or any(isinstance(x, ast.Return) for x in pf.walk_shallow(h)):
+            return None
+        if any(isinstance(x, ast.YieldFrom) for x in pf.walk_shallow(h)):
+            return None
+
+        def tail_ok(stmts: List[ast.stmt], tail: bool) -> bool:
+            for i, x in enumerate(stmts):
+                t = tail and i == len(stmts) - 1
+                if self._yield_stmt(x) is not None:
+                    if not t:
+                        return False
+                elif isinstance(x, ast.If):
+                    if has_yield(x.test) or not tail_ok(x.body, t) or not tail_ok(x.orelse, t):
+                        return False
+                elif has_yield(x):
+                    return False
+            return True
+        if not has_yield(loop) or not tail_ok(loop.body, True):
+            return None
+        return prefix, loop
+
+    def _expand_for(self, st: ast.stmt, caller_names: Set[str], stack: Tuple[str, ...]) -> Optional[List[ast.stmt]]:
+        if not isinstance(st, ast.For) or not isinstance(st.iter, ast.Call):
+            return None
+        name = self._callee(st.iter)
+        if name is None:
+            return None
+        h = self.helpers[name]
+        line = getattr(st, 'lineno', 0)
+        if name in stack or len(stack) >= self.max_depth:
+            self.skipped.append((name, line, 'recursive / too deep'))
+            return None
+        shape = self._gen_shape(h)
+        if shape is None:
+            self.skipped.append((name, line, 'not a simple generator'))
+            return None
+        b = self._bind(name, h, st.iter, caller_names, st)
+        if isinstance(b, str):
+            self.skipped.append((name, line, b))
+            return None
+        mapping, pre, hl = b
+        prefix, loop = copy.deepcopy(shape[0]), copy.deepcopy(shape[1])
+        # when the generator yields one of its own locals (`for pool in ...: yield pool`) and the caller binds a plain name, the local
+        # simply becomes the caller's name (no alias assignment): guards on it are then guards on the caller's variable
+        yvals = [self._yield_stmt(x) for x in ast.walk(loop) if isinstance(x, ast.stmt) and self._yield_stmt(x) is not None]
+        direct = None
+        if isinstance(st.target, ast.Name) and yvals and all(isinstance(v, ast.Name) and v.id == yvals[0].id for v in yvals):  # type: ignore[union-attr]
+            yv = yvals[0].id  # type: ignore[union-attr]
+            params = {x.arg for x in h.args.args + h.args.kwonlyargs}
+            if yv in hl and yv not in params and (st.target.id not in hl or st.target.id == yv):
+                mapping[yv] = ast.Name(id=st.target.id, ctx=ast.Load())
+                direct = yv
+        rn = _Renamer(mapping)
+        prefix = [rn.visit(x) for x in prefix]
+        loop = rn.visit(loop)
+        caller_body, target = st.body, st.target
+
+        def subst(stmts: List[ast.stmt]) -> List[ast.stmt]:
+            out: List[ast.stmt] = []
+            for x in stmts:
+                v = self._yield_stmt(x)
+                if v is not None:
+                    if direct is None:
+                        out.append(ast.copy_location(ast.Assign(targets=[copy.deepcopy(target)], value=v, lineno=x.lineno), x))
+                    out.extend(copy.deepcopy(caller_body))
+                elif isinstance(x, ast.If):
+                    x.body, x.orelse = subst(x.body), subst(x.orelse)
+                    out.append(x)
+                else:
+                    out.append(x)
+            return out
+        loop.body = subst(loop.body)
+        loop.orelse = copy.deepcopy(st.orelse)
+        new = pre + prefix + [loop]
+        for x in new:
+            ast.fix_missing_locations(x)
+        self.inlined.append((name, line))
+        names2 = caller_names | {m.id for m in mapping.values() if isinstance(m, ast.Name)} | hl
+        return self._block(new, names2, stack + (name,))
+
+    def _expand_next(self, st: ast.stmt, caller_names: Set[str], stack: Tuple[str, ...]) -> Optional[List[ast.stmt]]:
+        """`x = next(self.gen(args), default)`  ==>  `x = default; for x in self.gen(args): break`  (then the loop is inlined)."""
+        if not (isinstance(st, ast.Assign) and len(st.targets) == 1 and isinstance(st.targets[0], ast.Name) and isinstance(st.value, ast.Call)
+                and isinstance(st.value.func, ast.Name) and st.value.func.id == 'next' and len(st.value.args) == 2 and not st.value.keywords):
+            return None
+        g = st.value.args[0]
+        if isinstance(g, ast.Call) and isinstance(g.func, ast.Name) and g.func.id == 'iter' and len(g.args) == 1:
+            g = g.args[0]
+        if not isinstance(g, ast.Call) or self._callee(g) is None:
+            return None
+        tgt = st.targets[0]
+        init = ast.copy_location(ast.Assign(targets=[copy.deepcopy(tgt)], value=st.value.args[1], lineno=st.lineno), st)
+        loop = ast.copy_location(ast.For(target=ast.Name(id=tgt.id, ctx=ast.Store()), iter=g, body=[ast.copy_location(ast.Break(), st)], orelse=[], lineno=st.lineno), st)
+        ast.fix_missing_locations(init)
+        ast.fix_missing_locations(loop)
+        ex = self._expand_for(loop, caller_names, stack)
+        if ex is None:
+            return None
+        return [init] + ex
+
     # -- blocks ------------------------------------------------------------------
     def _block(self, stmts: List[ast.stmt], names: Set[str], stack: Tuple[str, ...]) -> List[ast.stmt]:
         out: List[ast.stmt] = []
         for st in stmts:
             ex = self._expand(st, names, stack)
+            if ex is None:
+                ex = self._expand_next(st, names, stack)
+            if ex is None:
+                ex = self._expand_for(st, names, stack)
             if ex is not None:
                 out.extend(ex if ex else [ast.copy_location(ast.Pass(), st)])
                 continue
